@@ -51,23 +51,24 @@ func (a Action) strs(k string) []string {
 }
 
 type AbsState struct {
-	Conn    []string             `json:"conn"`
-	Known   map[string][]string  `json:"known"`
-	Feats   map[string][]FeatVer `json:"feats"`
-	Subs    []RegEntry           `json:"subs"`
-	Binds   []RegEntry           `json:"binds"`
-	SubIds  []uint64             `json:"subids"`
-	BindIds []uint64             `json:"bindids"`
-	CSub    []CEntry             `json:"csub"`
-	CBind   []CEntry             `json:"cbind"`
-	Data    map[string]int       `json:"data"`
-	RData   map[string]int       `json:"rdata"`
-	RUcs    map[string]int       `json:"rucs"`
-	Nid     int                  `json:"nid"`
-	Ucs     []AbsUc              `json:"ucs"`
-	HasUc   []UcKey              `json:"hasuc"`
-	Res     map[string]bool      `json:"res"`  // peer resolvable by SKI
-	ResA    map[string]bool      `json:"resa"` // peer resolvable by device address
+	Conn    []string                  `json:"conn"`
+	Known   map[string][]string       `json:"known"`
+	Feats   map[string][]FeatVer      `json:"feats"`
+	Subs    []RegEntry                `json:"subs"`
+	Binds   []RegEntry                `json:"binds"`
+	SubIds  []uint64                  `json:"subids"`
+	BindIds []uint64                  `json:"bindids"`
+	CSub    []CEntry                  `json:"csub"`
+	CBind   []CEntry                  `json:"cbind"`
+	Data    map[string]int            `json:"data"`
+	RData   map[string]int            `json:"rdata"`
+	RUcs    map[string]int            `json:"rucs"`
+	EDesc   map[string]map[string]int `json:"edesc"` // peer -> entity -> version of its description (0 none, -1 unexpected)
+	Nid     int                       `json:"nid"`
+	Ucs     []AbsUc                   `json:"ucs"`
+	HasUc   []UcKey                   `json:"hasuc"`
+	Res     map[string]bool           `json:"res"`  // peer resolvable by SKI
+	ResA    map[string]bool           `json:"resa"` // peer resolvable by device address
 }
 type UcKey struct {
 	E     string `json:"e"`
@@ -90,14 +91,15 @@ type CEntry struct {
 }
 
 type TraceLine struct {
-	A   Action             `json:"a"`
-	Out map[string][]AbsDg `json:"out"` // replies, results, notifies per connection
-	Req map[string][]AbsDg `json:"req"` // requests the stack originated (followed)
-	Ev  []AbsEvent         `json:"ev"`
-	St  *AbsState          `json:"st"`
-	Ret string             `json:"ret"`
-	Pan string             `json:"panic"`
-	Cbf []CbFire           `json:"cbf"`
+	Late int                `json:"late"` // datagrams written after the step had returned
+	A    Action             `json:"a"`
+	Out  map[string][]AbsDg `json:"out"` // replies, results, notifies per connection
+	Req  map[string][]AbsDg `json:"req"` // requests the stack originated (followed)
+	Ev   []AbsEvent         `json:"ev"`
+	St   *AbsState          `json:"st"`
+	Ret  string             `json:"ret"`
+	Pan  string             `json:"panic"`
+	Cbf  []CbFire           `json:"cbf"`
 }
 
 // CbFire: one invocation of a response / result callback registered by the harness
@@ -248,7 +250,7 @@ func (s *System) discoveryItems(p *Peer, items []annItem, devInEnt bool) *model.
 		}
 		d.EntityInformation = append(d.EntityInformation, model.NodeManagementDetailedDiscoveryEntityInformationType{
 			Description: &model.NetworkManagementEntityDescriptionDataType{EntityAddress: ea, EntityType: &et, LastStateChange: it.State,
-				Description: ptr(model.DescriptionType("entity " + e))}})
+				Description: ptr(model.DescriptionType(fmt.Sprintf("entity %s v%d", e, max(it.V, 1))))}})
 		names := append([]string{}, it.Fs...)
 		sort.Strings(names)
 		for _, n := range names {
@@ -313,6 +315,24 @@ func (s *System) step(a Action) (line TraceLine) {
 		}
 	}
 	s.quiesce()
+	// whatever the stack does for an input is done when the call returns (only callbacks and application-level event
+	// handlers run asynchronously): datagrams written after the return are counted
+	for _, pn := range s.topo.Peers {
+		q := s.peers[pn]
+		for _, raw := range q.w.drain() {
+			line.Late++
+			d, full := s.abstractOut(q, raw, 0)
+			switch d.K {
+			case "result", "reply", "notify":
+				line.Out[pn] = append(line.Out[pn], d)
+			default:
+				line.Req[pn] = append(line.Req[pn], d)
+				if full != nil && full.Header.MsgCounter != nil {
+					q.lastReq[d.Fn] = uint64(*full.Header.MsgCounter)
+				}
+			}
+		}
+	}
 	line.Cbf = s.drainCbf()
 	line.Ev = s.drainEvents()
 	line.St = s.project()
@@ -565,6 +585,29 @@ func emptyData(fn string) any {
 
 // ---------- projection through public getters ----------
 
+// entDescVersion: the version the entity's description and type were announced in (0 = no description)
+func entDescVersion(e api.EntityRemoteInterface) int {
+	d := e.Description()
+	if d == nil {
+		return 0
+	}
+	name := entStr(e.Address().Entity)
+	wantType := model.EntityTypeTypeEVSE
+	if name == "0" {
+		wantType = model.EntityTypeTypeDeviceInformation
+	}
+	if e.EntityType() != wantType {
+		return -1
+	}
+	switch string(*d) {
+	case "entity " + name + " v1":
+		return 1
+	case "entity " + name + " v2":
+		return 2
+	}
+	return -1
+}
+
 // remoteUcVal: the version of the peer's use cases as DeviceRemote.UseCases reports them (0 = none, -1 = unexpected)
 func remoteUcVal(rd api.DeviceRemoteInterface) (v int) {
 	defer func() {
@@ -584,7 +627,7 @@ func remoteUcVal(rd api.DeviceRemoteInterface) (v int) {
 
 func (s *System) project() *AbsState {
 	st := &AbsState{Conn: []string{}, Known: map[string][]string{}, Feats: map[string][]FeatVer{}, Subs: []RegEntry{}, Binds: []RegEntry{}, SubIds: []uint64{}, BindIds: []uint64{},
-		Nid: len(s.idCtr), CSub: []CEntry{}, CBind: []CEntry{}, Data: map[string]int{}, RData: map[string]int{}, RUcs: map[string]int{}, Res: map[string]bool{}, ResA: map[string]bool{}}
+		Nid: len(s.idCtr), CSub: []CEntry{}, CBind: []CEntry{}, Data: map[string]int{}, RData: map[string]int{}, RUcs: map[string]int{}, EDesc: map[string]map[string]int{}, Res: map[string]bool{}, ResA: map[string]bool{}}
 	for _, pn := range s.topo.Peers {
 		p := s.peers[pn]
 		st.Known[pn] = []string{}
@@ -594,6 +637,7 @@ func (s *System) project() *AbsState {
 		st.ResA[pn] = s.dev.RemoteDeviceForAddress(model.AddressDeviceType(p.devAddr)) != nil
 		st.RData[pn] = 0
 		st.RUcs[pn] = 0
+		st.EDesc[pn] = map[string]int{}
 		if rd != nil {
 			st.RUcs[pn] = remoteUcVal(rd)
 			if rf := rd.FeatureByAddress(s.remoteAddr(p, "s14")); rf != nil && !isNilIface(rf) {
@@ -602,6 +646,7 @@ func (s *System) project() *AbsState {
 			st.Conn = append(st.Conn, pn)
 			for _, e := range rd.Entities() {
 				st.Known[pn] = append(st.Known[pn], entStr(e.Address().Entity))
+				st.EDesc[pn][entStr(e.Address().Entity)] = entDescVersion(e)
 				for _, f := range e.Features() {
 					n := s.remoteName(p, f.Address())
 					if n == "nm" || n == "nm@nodev" { // the node management feature exists from connection setup on
@@ -720,6 +765,11 @@ func (s *System) payloadCmd(pl string, v int, cls string) model.CmdType {
 		cmd.NodeManagementDestinationListData = &model.NodeManagementDestinationListDataType{}
 	case "discovery":
 		cmd.NodeManagementDetailedDiscoveryData = &model.NodeManagementDetailedDiscoveryDataType{}
+	case "limitp":
+		// the limit data with a partial filter (one identified item: merged into the cache)
+		cmd.SetDataForFunction(fnMap["limit"], mkData("limit", v))
+		cmd.Function = ptr(fnMap["limit"])
+		cmd.Filter = []model.FilterType{*model.NewFilterTypePartial()}
 	default:
 		if cls == "read" {
 			cmd.SetDataForFunction(fnMap[pl], emptyData(pl))
